@@ -792,6 +792,21 @@ theorem vals_resHdr (m : Msg) (k : Bytes) (hk : (exclOf m).contains k = false) (
   · rw [vals_del_ne _ _ _ hconn, vals_append, vals_clF_ne m k hcl, vals_e2e m k hk]; rfl
   · rw [vals_append, vals_clF_ne m k hcl, vals_e2e m k hk]; rfl
 
+/-- A full snapshot of a message without a trailer map is its wire form (the C15 theorem
+`snapshot_is_wire_partial`, restated here for the sub-files of `Props/C15`). -/
+theorem snapshot_message_eq_wire (o : Opts) (m : Msg) (hc : captures o m = true) (ht : m.trailer = none) :
+    (snapshot o m).message = wire m := by
+  unfold snapshot wire
+  simp only [hc, if_true, trailerSection, ht, framedBody]
+  cases hch : isChunked m.te <;> simp [fields, sortKV]
+
+/-- F15a in the terms of this file: with a trailer map on a chunked message the snapshot is the
+wire form minus its final CRLF. -/
+theorem wire_eq_snapshot_crlf (o : Opts) (m : Msg) (t : List KV) (hc : captures o m = true)
+    (ht : m.trailer = some t) (hch : isChunked m.te = true) : wire m = (snapshot o m).message ++ crlf := by
+  unfold snapshot wire
+  simp [hc, trailerSection, ht, framedBody, hch]
+
 /-- A message already in the reader's normal form (header list sorted, carrying its own
 `Content-Length` field) re-parses to itself, field for field. -/
 theorem reqParsed_msg_of_normal (m : Msg) (h : parsedHdr m = m.hdr) : (reqParsed m).msg = m := by
